@@ -62,7 +62,10 @@ fn gen_first_model(r: &mut Rng, o: &FullOpts, ids: &mut usize) -> SModel {
                     } else { (step(r, -1_000_000, 10_000_000, 1000), step(r, -99_999, 99_999, 1000), step(r, -99_999, 99_999, 1000)) };
                     let occ = if o.in_range { if r.chance(1, 12) { *r.pick(&[999_990_000i64, 0]) } else { r.range(0, 100) * 10_000 } } else { r.range(0, 100_001) * 10_000 };
                     let bf = if o.in_range { r.range(0, 99_999) * 10_000 } else { r.range(0, 100_001) * 10_000 };
-                    let atf = if r.chance(1, 6) { let mut t = [0i64; 9]; let v: Vec<i64> = (0..6).map(|_| r.range(-9999, 9999) * 100).collect(); t[0] = v[0]; t[4] = v[1]; t[8] = v[2]; t[1] = v[3]; t[3] = v[3]; t[2] = v[4]; t[6] = v[4]; t[5] = v[5]; t[7] = v[5]; Some(t) } else { None };
+                    let atf = if o.target == Target::Cif && r.chance(1, 10) {
+                        // mmCIF has nine columns: the tensor need not be symmetric
+                        let mut t = [0i64; 9]; for v in t.iter_mut() { *v = r.range(-9999, 9999) * 100; } Some(t)
+                    } else if r.chance(1, 6) { let mut t = [0i64; 9]; let v: Vec<i64> = (0..6).map(|_| r.range(-9999, 9999) * 100).collect(); t[0] = v[0]; t[4] = v[1]; t[8] = v[2]; t[1] = v[3]; t[3] = v[3]; t[2] = v[4]; t[6] = v[4]; t[5] = v[5]; t[7] = v[5]; Some(t) } else { None };
                     atoms.push(SAtom { het: name == "HOH" || name == "MG", serial: if o.in_range { serial } else if r.chance(1, 30) { 100_000 } else { serial }, id: ids.to_string(), name: nm, x, y, z, occ, b: bf,
                         el: 0, charge: if r.chance(1, 8) { r.range(-9, 9) } else { 0 }, atf });
                 }
